@@ -959,7 +959,24 @@ theorem elabInstr_spec (d : Mode) (loc : List Nat) (v : Val) (i : Instr) : Pres 
   hwf_fin d
 
 @[spec]
-theorem elabTemplate_spec (d : Mode) (t : Template) (v : Val) : Pres d (elabTemplate t v) := by
+theorem elabTemplateBase_spec (d : Mode) (t : Template) (v : Val) (init : List Nat) :
+    Pres d (elabTemplateBase t v init) := by
+  mvcgen [elabTemplateBase]
+  hwf_fin d
+
+@[spec]
+theorem memoCall_spec (d : Mode) (env : Env) (m : Nat) (key : Int) : Pres d (memoCall env m key) := by
+  mvcgen [memoCall]
+  hwf_fin d
+
+@[spec]
+theorem elabInstrM_spec (d : Mode) (env : Env) (loc : List Nat) (v : Val) (i : Instr) :
+    Pres d (elabInstrM env loc v i) := by
+  mvcgen [elabInstrM]
+  hwf_fin d
+
+@[spec]
+theorem elabTemplate_spec (d : Mode) (env : Env) (t : Template) (v : Val) : Pres d (elabTemplate env t v) := by
   mvcgen [elabTemplate]
   hwf_fin d
 
@@ -1054,6 +1071,25 @@ theorem maybeChangeValue_spec (d : Mode) (env : Env) (fuel n : Nat) (v : Val) :
 theorem runEffects_spec (env : Env) (fuel : Nat) (effs : List Effect) (arg : Int) :
     Pres .debug (runEffects env fuel effs arg) := by
   mvcgen [runEffects, -Spec.forIn_list, forIn_pres]
+
+@[spec]
+theorem expertValue_spec (d : Mode) (env : Env) (e : Nat) (dv sv : List (Option Val)) :
+    Pres d (expertValue env e dv sv) := by
+  mvcgen [expertValue]
+  hwf_fin d
+
+@[spec]
+theorem withOldEvents_spec (d : Mode) (env : Env) (g n : Nat) (σ : Val) (old : Option Val) (x new : Val)
+    (did : Bool) : Pres d (withOldEvents env g n σ old x new did) := by
+  mvcgen [withOldEvents, -Spec.forIn_list, forIn_pres]
+  hwf_fin d
+
+@[spec]
+theorem perKeyDriver_spec (env : Env) (fuel op : Nat) (newMap : List (Int × Int)) :
+    Pres .debug (perKeyDriver env fuel op newMap) := by
+  mvcgen [perKeyDriver, Functor.discard, -Spec.forIn_list, forIn_pres]
+  hwf_fin Mode.debug
+  all_goals exact expertAddDependency_spec _ _ _ _ _
 
 @[spec]
 theorem recomputeOne_spec (env : Env) (fuel n : Nat) : Pres .debug (recomputeOne env fuel n) := by
@@ -1275,7 +1311,8 @@ def cexEnv : Env :=
   { fn := fun _ _ => .unit, fnEff := fun _ _ => [.panic], foldStep := fun _ a _ => a, proj := fun _ v => v,
     withOld := fun _ σ _ v => (σ, v, true), cutoff := fun _ _ _ => false,
     body := fun _ _ => { instrs := [], ret := .abs 0 }, handler := fun _ _ => [],
-    expertFn := fun _ _ _ => .unit }
+    expertFn := fun _ _ _ => .unit, withOldCalls := fun _ _ _ _ => [],
+    memo := fun _ => { instrs := [], ret := .abs 0 }, perKey := fun _ => { instrs := [], ret := .abs 0 } }
 
 /-- release build; node 0 is unnecessary but still queued at height 0; observer 0 on it is new -/
 def cexState : State :=
